@@ -11,10 +11,9 @@
 
   Send: `nice_agent_send_messages_nonblocking_internal`, reliable-socket branch: messages are cut
   into packets of at most 0xF800 bytes, each prefixed with a 2-byte length and handed to the TCP
-  socket (first packet unreliably, the following ones reliably).  Mirrored quirk: the scatter
-  entry for the buffer in which a packet starts is `MIN (buffers[j].size, packet_len)` bytes long
-  from `buffer + offset_in_buffer` — it ignores that `offset_in_buffer` bytes of that buffer are
-  already sent, so it reads past the end of the buffer when another buffer follows (`fault`).
+  socket (first packet unreliably, the following ones reliably).  As fixed in a5ed163 the scatter
+  entry for the buffer in which a packet starts is MIN (size - offset_in_buffer, packet_len) bytes
+  long; `fault` records any entry that would leave its buffer.
 -/
 import Nice.Model.SendQueue
 namespace Nice.Rfc4571
@@ -101,14 +100,14 @@ def recv (handled : Bytes → Bool) (s : St) (b : Base) (ucap : Nat := 65536) : 
 def findStart : List Bytes → (j offset currentOffset : Nat) → Nat × Nat × Nat
   | [], j, _, cur => (j, 0, cur)
   | b :: rest, j, offset, cur =>
-    if b.length < offset - cur then findStart rest (j + 1) offset (cur + b.length)
+    if b.length ≤ offset - cur then findStart rest (j + 1) offset (cur + b.length)
     else (j, offset - cur, offset)
 
 /-- second loop: scatter entries from buffer j on. Returns (entries, over-read?, bytes added to offset) -/
 def gather : List Bytes → (oib packetLen : Nat) → List Bytes × Bool × Nat
   | [], _, _ => ([], false, 0)
   | b :: rest, oib, packetLen =>
-    let size := min b.length packetLen
+    let size := min (b.length - oib) packetLen
     let entry := (b.drop oib).take size
     let over := oib + size > b.length
     let (es, o, n) := gather rest 0 (packetLen - size)
